@@ -451,8 +451,27 @@ func (eng *Engine) checkProperty(prop string, timeoutMs int, all_ bool, verbose 
 			continue
 		}
 		if c != nil && c.Attrs["trusted_summary"] == "true" {
-			// a summary that is assumed, not verified (listed in evidence)
-			rep.Funcs = append(rep.Funcs, &FuncResult{Key: k, Assumed: []string{"trusted summary (not verified): " + k}})
+			// a summary that is assumed, not verified (listed in evidence) -
+			// except for its clauses named checked_*, which are about the shape
+			// of its trace (what it calls last, in which order) and are proved
+			fr := &FuncResult{Key: k, Assumed: []string{"trusted summary (not verified, except clauses named checked_*): " + k}}
+			hasChecked := false
+			for _, cl := range c.Ensures {
+				if strings.HasPrefix(cl.Name, "checked_") {
+					hasChecked = true
+				}
+			}
+			if hasChecked {
+				res := eng.verifyFunction(fn, c, false)
+				for _, o := range res.Obls {
+					if strings.Contains(o.Group, "/ensures:checked_") {
+						fr.Obls = append(fr.Obls, o)
+					}
+				}
+				fr.Paths = res.Paths
+				rep.All = append(rep.All, fr.Obls...)
+			}
+			rep.Funcs = append(rep.Funcs, fr)
 			continue
 		}
 		res := eng.verifyFunction(fn, c, checkLocks)
@@ -639,6 +658,10 @@ func (eng *Engine) touchesSharedState(fn *ssa.Function) bool {
 			case *ssa.FieldAddr:
 				t := x.X.Type().Underlying().(*types.Pointer).Elem()
 				if st, ok := t.Underlying().(*types.Struct); ok && guarded[typeKey(t)+"."+st.Field(x.Field).Name()] {
+					return true
+				}
+			case *ssa.Store:
+				if foreignGlobalOf(x.Addr) != nil {
 					return true
 				}
 			case ssa.CallInstruction:
